@@ -131,7 +131,7 @@ func runCase(c *Case) ([]F, map[string]interface{}) {
 	var fs []F
 	obs := map[string]interface{}{}
 	r := vh.NewRng(c.Seed)
-	g := gqlty.NewGenSchemaOpt(r.Fork(), true) // C14-fix-3 is in the repository: batch results may leave out text-marshaler entries too
+	g := gqlty.NewGenSchemaOpt(r.Fork(), c.OmitMarshalers)
 	schema, err := g.Build()
 	obs["shapes"] = g.Shapes
 	if err != nil {
